@@ -391,6 +391,14 @@ where
                     let count = !failed.load(Ordering::Relaxed);
                     let bad = ctx.record(&case, digest_of(&case), &v, count);
                     if bad {
+                        if let Verdict::Fail { sig, .. } = &v {
+                            if sig.iter().any(|t| t == "no-shrink") {
+                                // expensive failures (hangs) are reported as found, without shrinking
+                                ctx.report_violation(&case, &v);
+                                stop.store(true, Ordering::Relaxed);
+                                return Ok(());
+                            }
+                        }
                         failed.store(true, Ordering::Relaxed);
                         *first_fail.lock().unwrap() = Some(v.clone());
                         let msg = match &v {
